@@ -37,23 +37,22 @@ def _count(key):
 
 
 # attributes of the class: a tag with such a name is never converted on an attribute read (known finding)
-CLASS_ATTRIBUTES = ['__class__', '__delattr__', '__dict__', '__dir__', '__doc__', '__eq__', '__format__', '__ge__', '__getattr__', '__getattribute__', '__getstate__', '__gt__', '__hash__', '__init__', '__init_subclass__', '__le__', '__lt__', '__module__', '__ne__', '__new__', '__reduce__', '__reduce_ex__', '__repr__', '__setattr__', '__sizeof__', '__str__', '__subclasshook__', '__weakref__', '_points', '_points_tag', '_tags_to_indices', '_transform', 'append_transform', 'convert_units', 'do_transform', 'flip', 'non_uniform_scale', 'reorient', 'rotate', 'tag_as', 'translate', 'uniform_scale']
-
-
-def _check_attribute_list():
-    """fail-closed tie of the attribute list: real dir() == this list == the list in coq/model/M_coordmgr.v"""
-    import os, re
+def class_attributes():
+    """(attribute names of a CoordinateManager, name of the instance attribute that holds the assigned array), read from
+    the code on every run and passed into the Coq cases: the model and its theorems are parametric in both, so private
+    helpers may come and go.  Only the public names flip / translate / tag_as / do_transform are relied upon."""
     from polliwog.transform._coordinate_manager import CoordinateManager
-    real = sorted(dir(CoordinateManager()))
-    if real != sorted(CLASS_ATTRIBUTES):
-        raise RuntimeError("dir(CoordinateManager()) changed: %r" % sorted(set(real) ^ set(CLASS_ATTRIBUTES)))
-    txt = open(os.path.join(os.path.dirname(__file__), "..", "..", "coq", "model", "M_coordmgr.v")).read()
-    body = txt[txt.index("Definition class_attributes"):txt.index("Definition attr_shadowed")]
-    if sorted(re.findall(r'"([^"]+)"', body)) != real:
-        raise RuntimeError("class_attributes in M_coordmgr.v differs from dir(CoordinateManager())")
+    cm = CoordinateManager()
+    attrs = sorted(dir(cm))
+    cm.tag_as("t")
+    probe = np.zeros((1, 3))
+    cm.t = probe
+    holders = [k for k, v in vars(cm).items() if v is probe]
+    return attrs, (holders[0] if holders else "")
 
 
-SHADOW_TAGS = ["flip", "translate", "_points", "_points_tag", "_transform", "do_transform", "__doc__", "__eq__"]
+# probes: public method names, inherited dunder names, and the instance attributes named in the property's anchors
+SHADOW_TAGS = ["flip", "translate", "do_transform", "tag_as", "__doc__", "__eq__", "_points", "_points_tag", "_transform"]
 TAGS = ["a", "b", "c", "d", "src"]
 UNKNOWN = ["zz", "nope"]
 
@@ -87,6 +86,8 @@ def kernels():
     def S(x):
         return '"%s"%%string' % x
 
+    _attrs, _pa = class_attributes()
+
     SCRIPT = ("[CTagAs %s; CTransform (OTranslate (V3 t0 t1 t2)); CTransform (OUniformScale s0 false); CTagAs %s; CTagAs %s; "
               "CTransform (OTranslate (V3 u0 u1 u2)); CTagAs %s; CSetAttr %s P; CGetAttr %s; CGetAttr %s; CGetAttr %s; "
               "CGetAttr %s; CSetAttr %s P; CGetAttr %s; CGetAttr %s; CDoTransform P %s %s]"
@@ -96,7 +97,7 @@ Definition outs (l : list (result (cm_out R))) : list R :=
   flat_map (fun r => match r with Ok (OutPoints ps) => flat_map (fun v => [vx v; vy v; vz v]) ps | _ => [] end) l.
 Lemma {T}_ok : forall {vars} : R, {T}_path ROps {vars} ->
   let P := [V3 p0 p1 p2; V3 p3 p4 p5] in
-  outs (snd (cm_run ROps SCRIPT (cm_init (F:=R)))) = {T} ROps {vars}.
+  outs (snd (cm_run ROps ATTRS PTSATTR SCRIPT (cm_init (F:=R)))) = {T} ROps {vars}.
 Proof. intros {vars} Hpath. unfold {T}_path in Hpath; rops. path_facts Hpath.
   cbv [cm_run cm_step cm_init step op_pair rmap cm_tr cm_tags cm_points fst snd].
   unfold tm_uniform_scale, tm_non_uniform_scale, n0, n1; rops.
@@ -104,7 +105,7 @@ Proof. intros {vars} Hpath. unfold {T}_path in Hpath; rops. path_facts Hpath.
   cbn [orb negb andb].
   repeat match goal with |- context [Rltb ?a ?b] => destruct (Rltb_spec a b) as [?E|?E]; [exfalso; lra|] end.
   unfold {T}. UNF.
-  list_eq ltac:(first [ring | (field; repeat split; first [assumption | lra])]). Qed.""".replace("SCRIPT", SCRIPT).replace("UNF", _c03.UNF)
+  list_eq ltac:(first [ring | (field; repeat split; first [assumption | lra])]). Qed.""".replace("SCRIPT", SCRIPT).replace("UNF", _c03.UNF).replace("PTSATTR", S(_pa)).replace("ATTRS", coq_list(S(a) for a in _attrs))
     return [Kernel("cm_script", {"t": [0.5, -1.0, 3.0], "s": [2.0], "u": [1.0, 0.25, -2.0],
                                  "p": [[1.0, 2.0, -0.5], [0.5, 0.25, 4.0]]}, script, lemma, imports=_imports())]
 
@@ -228,7 +229,7 @@ def run_impl(c):
 
     def go():
         import ounce
-        _check_attribute_list()
+        attrs, pts_attr = class_attributes()
         cm = CoordinateManager()
         results, factors, lens = [], [], []
         for op in c["ops"]:
@@ -258,7 +259,7 @@ def run_impl(c):
                     rk = "forward" if tg[a_] < tg[b_] else ("backward" if tg[a_] > tg[b_] else "same_position")
                 else:
                     rk = "before_assignment" if a_ is None else "unknown_tag"
-                if op["c"] == "get" and op["name"] in CLASS_ATTRIBUTES:
+                if op["c"] == "get" and op["name"] in attrs:
                     rk += "/attribute_name"
                 _count("read:%s/%s" % ("attribute" if op["c"] == "get" else "do_transform", rk))
             r = call_impl(one)
@@ -278,7 +279,7 @@ def run_impl(c):
                 results.append({"other": type(r).__name__})
         pairs = [[np.asarray(f, dtype=np.float64).reshape(-1).tolist(), np.asarray(i, dtype=np.float64).reshape(-1).tolist()]
                  for f, i in cm._transform.transforms]
-        return {"results": results, "factors": factors, "lens": lens, "pairs": pairs,
+        return {"attrs": attrs, "pts_attr": pts_attr, "results": results, "factors": factors, "lens": lens, "pairs": pairs,
                 "tags": dict(cm._tags_to_indices)}
 
     return call_impl(go)
@@ -303,7 +304,7 @@ def coq_cm_op(op, factor):
 
 def coq_case(c, o):
     if isinstance(o, dict) and "raise" in o:
-        return "CScript [] [Raise OtherError]"
+        return 'CScript [] ""%string [] [Raise OtherError]'
     ops = coq_list(coq_cm_op(op, f) for op, f in zip(c["ops"], o["factors"]))
     res = []
     for r in o["results"]:
@@ -315,7 +316,7 @@ def coq_case(c, o):
             res.append("(Ok OOther)")
         else:
             res.append("(Ok (OPts %s))" % coq_list(flv(row) for row in r["points"]))
-    return "CScript %s %s" % (ops, coq_list(res))
+    return "CScript %s %s %s %s" % (coq_list(_s(a) for a in o["attrs"]), _s(o["pts_attr"]), ops, coq_list(res))
 
 
 # ---- oracle: brute-force sequential application between tag positions ---------------------------------------------
@@ -386,7 +387,7 @@ def oracle(c, o):
                 assigned = (op["name"], op["points"])
             continue
         if k == "get":
-            if assigned is None and op["name"] in CLASS_ATTRIBUTES:
+            if assigned is None and op["name"] in o["attrs"]:
                 # ordinary attribute lookup succeeds, __getattr__ is not consulted: no ValueError for a tag of that name
                 if op["name"] in tags and r.get("raise") != "ValueError":
                     return ("SHADOWED attribute read of tag %r before any assignment: ValueError demanded, the attribute (%s) was "
@@ -401,7 +402,7 @@ def oracle(c, o):
         else:
             what, want = expected_read(op["points"], op["from"], op["to"])
             site = "do_transform %s -> %s" % (op["from"], op["to"])
-        if k == "get" and op["name"] in CLASS_ATTRIBUTES and op["name"] in tags:
+        if k == "get" and op["name"] in o["attrs"] and op["name"] in tags:
             # the property demands the converted points; Python hands out the attribute instead (known finding)
             if what == "ok" and ("points" not in r or any(
                     abs(Fr(a) - b) > TOL * mag[0] * max([1] + [abs(x) for x in w]) for got, w in zip(r["points"], want)
